@@ -38,11 +38,14 @@ def eps_module(subset):
     return "    pub mod eps {\n        use super::super::*;\n" + types + "\n" + "\n".join(fns) + "\n    }\n"
 
 
-def module(name, subset, with_mr, replies, generic=False):
+def module(name, subset, with_mr, replies, generic=False, shared=False):
     ovr = []
     for k in subset:
-        msg = "sylvia::cw_std::Reply" if k == "reply" else f"eps::Custom{k.capitalize()}"
-        ovr.append(f"    #[sv::override_entry_point({k}=eps::{EP[k]}({msg}))]")
+        # shared: every overridden kind names the SAME function path and message type (legal when the signatures agree:
+        # instantiate/exec, and sudo/migrate/reply with a Reply message)
+        f = subset[-1] if shared else k
+        msg = "sylvia::cw_std::Reply" if f == "reply" else f"eps::Custom{f.capitalize()}"
+        ovr.append(f"    #[sv::override_entry_point({k}=eps::{EP[f]}({msg}))]")
     feats = "    #[sv::features(replies)]\n" if replies else ""
     g_decl = "<T>" if generic else ""
     g_use = "<T>" if generic else ""
@@ -61,7 +64,7 @@ def module(name, subset, with_mr, replies, generic=False):
     return f"""
 pub mod {name} {{
     use super::*;
-{eps_module(subset)}
+{eps_module(subset[-1:] if shared else subset)}
     {struct}
 
     #[entry_points{ep_args}]
@@ -131,6 +134,11 @@ def main():
     for k in ("exec", "query"):
         mods.append(module(f"ovr_gen_{k[:4]}", [k], True, True, generic=True))
     mods.append(module("ovr_gen_none", [], True, True, generic=True))
+    # several kinds overridden by one shared function path
+    mods.append(module("ovr_shared_sudo_migr", ["sudo", "migrate"], True, True, shared=True))
+    mods.append(module("ovr_shared_inst_exec", ["instantiate", "exec"], True, False, shared=True))
+    mods.append(module("ovr_shared_sudo_migr_repl", ["sudo", "migrate", "reply"], True, True, shared=True))
+    mods.append(module("ovr_shared_migr_sudo_nomr", ["migrate", "sudo"], False, False, shared=True))
     write_pkg("w-overrides", "override subsets (quick): each kind alone, pairs, all, none; migrate/reply handlers present/absent; replies on/off; generic", mods)
     mods = []
     for r in range(0, 7):
